@@ -1,10 +1,42 @@
 #!/bin/sh
-# setup_cmd: offline pre-build of the harness from files on disk only.
-set -e
+# setup_cmd: offline pre-build of everything the quick checks need, from files on disk only.
+# Every check rebuilds incrementally from /repo's working tree anyway; this only warms the caches.
 cd "$(dirname "$0")"
 export CARGO_NET_OFFLINE=true
-mkdir -p .build evidence replays
+mkdir -p .build/macrogen-src evidence replays
+B="$(pwd)/.build"
+(
 cd harness
-CARGO_TARGET_DIR=../.build/main cargo build --offline --quiet --bin mon 2>/dev/null
-CARGO_TARGET_DIR=../.build/main cargo build --offline --quiet --release --bin mon 2>/dev/null
-echo "setup: harness built (dev + release)"
+CARGO_TARGET_DIR=$B/main cargo build --offline --quiet --bin mon 2>/dev/null &
+CARGO_TARGET_DIR=$B/deser cargo build --offline --quiet --features deser --bin mon 2>/dev/null &
+CARGO_TARGET_DIR=$B/par cargo build --offline --quiet --features par_iter --bin readers 2>/dev/null &
+CARGO_TARGET_DIR=$B/feat-none cargo build --offline --quiet --no-default-features --bin mon 2>/dev/null &
+wait
+CARGO_TARGET_DIR=$B/main cargo build --offline --quiet --release --bin mon 2>/dev/null &
+CARGO_TARGET_DIR=$B/deser cargo build --offline --quiet --release --features deser --bin mon 2>/dev/null &
+CARGO_TARGET_DIR=$B/feat-std cargo build --offline --quiet --no-default-features --features std --bin mon 2>/dev/null &
+CARGO_TARGET_DIR=$B/feat-std+macros cargo build --offline --quiet --no-default-features --features std,macros --bin mon 2>/dev/null &
+wait
+CARGO_TARGET_DIR=$B/feat-std+macros+par_iter+deser cargo build --offline --quiet --no-default-features --features std,macros,par_iter,deser --bin mon 2>/dev/null &
+( cd typecheck && CARGO_TARGET_DIR=$B/typecheck cargo +nightly build --offline --quiet --features freeze 2>/dev/null ) &
+CARGO_TARGET_DIR=$B/forbid cargo rustc --manifest-path /repo/indextree/Cargo.toml --lib --offline --quiet -- -F unsafe_code 2>/dev/null &
+wait
+)
+# macro crate (native + Miri) with a tiny generated program, Miri build of the reader workload
+python3 - <<'PY'
+import sys, os
+sys.path.insert(0, os.path.join(os.getcwd(), "lib"))
+import macrogen
+src, index, nsys = macrogen.generate(0, 2, 1)
+open(os.path.join(".build", "macrogen-src", "warm.rs"), "w").write(src)
+PY
+(
+cd harness/macrogen
+IXV_GENERATED=$B/macrogen-src/warm.rs CARGO_TARGET_DIR=$B/macrogen-0 cargo build --offline --quiet 2>/dev/null &
+IXV_GENERATED=$B/macrogen-src/warm.rs CARGO_TARGET_DIR=$B/macrogen-miri MIRIFLAGS="-Zmiri-disable-isolation" cargo +nightly miri run --offline --quiet >/dev/null 2>&1 &
+cd ..
+CARGO_TARGET_DIR=$B/miri MIRIFLAGS="-Zmiri-disable-isolation -Zmiri-tree-borrows -Zmiri-ignore-leaks" cargo +nightly miri run --offline --quiet --features par_iter --bin readers -- --arenas 1 --threads 2 --len 10 --max-live 4 --reps 1 >/dev/null 2>&1 &
+wait
+)
+test -x .build/main/debug/mon && test -x .build/main/release/mon || { echo "setup: harness build failed"; exit 1; }
+echo "setup: harness built"
